@@ -7,6 +7,7 @@ package main
 import (
 	"fmt"
 	"math/rand"
+	"strings"
 	"sync/atomic"
 	"time"
 
@@ -31,59 +32,96 @@ func runBlocked(in input) lib.Case {
 	b := in.Blocked
 	e, err := newREnv(true, 1)
 	if err != nil {
-		return lib.Case{Discard: true}
+		return lib.Case{Discard: true} // nothing observed yet
 	}
 	defer e.cleanup()
+	class := "blocked-tcp-send"
 	e.sendPeer = append(e.sendPeer, 0)
-	if err := e.runMacro(m1("send", 0), 0); err != nil || len(e.conns) != 1 || e.conns[0].pe == nil {
-		return lib.Case{Discard: true}
+	e.runMacro(m1("send", 0), 0)
+	var pe *peerEnd
+	if len(e.conns) >= 1 {
+		pe = e.conns[0].pe
 	}
-	pe := e.conns[0].pe
-	// the peer stops reading (it may still take the message its Receive is waiting for)
-	atomic.StoreInt32(&pe.stall, 1)
-	data := make([]byte, b.Size*1024)
-	nok := 0
+	nok := 1
+	blockedSeen := false
 	var blockedRes *opResult
-	for i := 0; i < 200; i++ {
-		res := &opResult{done: make(chan struct{})}
-		e.sends = append(e.sends, res)
-		go func() {
-			defer func() {
-				if p := recover(); p != nil {
-					res.pan = p
-					e.mu.Lock()
-					e.panicked = true
-					e.mu.Unlock()
-				}
-				close(res.done)
+	if pe == nil || e.sends[0].err != nil {
+		// the set-up send did not give a connection: evaluated as it is (the model expects Ok)
+		class += "+cut"
+		nok = 0
+	} else {
+		// the peer stops reading (it still takes the message its Receive may be in the middle of)
+		atomic.StoreInt32(&pe.stall, 1)
+		data := make([]byte, b.Size*1024)
+	sending:
+		for i := 0; i < 200; i++ {
+			res := &opResult{done: make(chan struct{})}
+			e.sends = append(e.sends, res)
+			go func() {
+				defer func() {
+					if p := recover(); p != nil {
+						res.pan = p
+						e.mu.Lock()
+						e.panicked = true
+						e.mu.Unlock()
+					}
+					close(res.done)
+				}()
+				_, res.err = e.r.Send(e.peers[0].si, &Blob{Data: data})
 			}()
-			_, res.err = e.r.Send(e.peers[0].si, &Blob{Data: data})
-		}()
-		select {
-		case <-res.done:
-			if res.err != nil {
-				// a send failed before anything blocked: not the scenario
-				close(pe.resume)
-				return lib.Case{Discard: true}
+			// Blocked = the peer is parked (reads nothing more) and the sending goroutine sits in the
+			// socket write waiting for buffer space. No time threshold decides it: a slow but
+			// progressing Send is never taken for a blocked one.
+			deadline := time.Now().Add(20 * time.Second)
+			for {
+				select {
+				case <-res.done:
+					if res.err != nil {
+						// a Send failed although nothing was closed: observed, evaluated (the model
+						// expects Ok here), not dropped
+						class += "+cut"
+						break sending
+					}
+					nok++
+					continue sending
+				case <-time.After(5 * time.Millisecond):
+				}
+				if atomic.LoadInt32(&pe.parked) == 1 && countStack("network.(*TCPConn).sendRaw", "waitWrite") > 0 {
+					// confirm: still there a moment later, and not finished meanwhile
+					time.Sleep(20 * time.Millisecond)
+					select {
+					case <-res.done:
+						continue
+					default:
+					}
+					if countStack("network.(*TCPConn).sendRaw", "waitWrite") > 0 {
+						blockedSeen = true
+						blockedRes = res
+						break sending
+					}
+				}
+				if time.Now().After(deadline) {
+					// neither returned nor recognisably blocked in the write
+					class += "+cut"
+					blockedRes = res
+					break sending
+				}
 			}
-			nok++
-			continue
-		case <-time.After(300 * time.Millisecond):
-			blockedRes = res
 		}
-		break
+		if blockedRes == nil && !strings.HasSuffix(class, "+cut") {
+			// 200 messages went out without any Send blocking although the peer reads nothing
+			class += "+cut"
+		}
 	}
-	if blockedRes == nil {
-		close(pe.resume)
-		return lib.Case{Discard: true}
-	}
-	// Stop while the Send is blocked in the write
+	// Stop while the Send is blocked in the write; a Stop that does not come back is an observation
 	for k := 0; k < b.Stops; k++ {
 		if err := e.runMacro(m0("stop"), 1000+k); err != nil {
 			break
 		}
 	}
-	waitCh(blockedRes.done, opDeadline)
+	if blockedRes != nil {
+		waitCh(blockedRes.done, opDeadline)
+	}
 	// connections the retried Send opened
 	for {
 		select {
@@ -95,7 +133,9 @@ func runBlocked(in input) lib.Case {
 		break
 	}
 	o := e.finish(map[int]int{})
-	close(pe.resume)
+	if pe != nil {
+		close(pe.resume)
+	}
 	if len(o.Stops) > 1 {
 		// the model has one Stop; further calls are idempotent (c10_idempotent): all must have returned
 		all := true
@@ -104,7 +144,7 @@ func runBlocked(in input) lib.Case {
 		}
 		o.Stops = []bool{all}
 	}
-	coq := fmt.Sprintf("BlockedSend %d %s", nok+1, coqRobs(o)) // the set-up send and the nok big ones completed
-	return lib.Case{Coq: coq, Class: "blocked-tcp-send", Obs: o, Nontrivial: true,
+	coq := fmt.Sprintf("BlockedSend %d %s %s", nok, lib.Bool(blockedSeen), coqRobs(o))
+	return lib.Case{Coq: coq, Class: class, Obs: o, Nontrivial: true,
 		Key: fmt.Sprint(b.Size, b.Stops, nok)}
 }
